@@ -28,6 +28,22 @@ export function f2Decls() {
     Alias("Base2", ObjT([Prop("kind", P("string")), Prop("id", P("string"))])),
     Alias("Circle", I(Ref("Base2"), ObjT([Prop("kind", L("circle")), Prop("r", P("number"))]))),
     Alias("Wide", ObjT([Prop("a", P("string")), Prop("id", P("number")), Prop("kind", P("boolean")), Prop("r", P("string"))])),
+    // diamond of alias unions: the same alias is reachable twice (not a cycle) wherever a union is unfolded
+    Alias("DRead", U(L("a"), L("b"))),
+    Alias("DEd", U(Ref("DRead"), L("c"))),
+    Alias("DAd", U(Ref("DRead"), L("d"))),
+    Alias("DAct", U(Ref("DEd"), Ref("DAd"))),
+    Alias("DAct2", U(Ref("DEd"), Ref("DRead"), Ref("DEd"))),
+    Alias("DWide", ObjT([Prop("a", L(1)), Prop("b", L(2)), Prop("c", L(3)), Prop("d", L(4)), Prop("e", L(5))])),
+    // objects that go through a semantic computation carrying top-typed properties and one named type both as an
+    // optional and as a required member
+    Alias("Kind2", U(L("a"), L("b"))),
+    Alias("Pt", ObjT([Prop("x", P("number"))])),
+    Alias("SA", ObjT([Prop("kind", L("a")), Prop("meta", P("unknown"), true), Prop("s", P("string"))])),
+    Alias("SB", ObjT([Prop("kind", L("b")), Prop("n", P("number")), Prop("body", P("any"))])),
+    Alias("SC", ObjT([Prop("alt", Ref("Kind2"), true), Prop("kind", Ref("Kind2"))])),
+    Alias("SD", ObjT([Prop("a", Ref("Pt"), true), Prop("b", Ref("Pt")), Prop("c", ArrT(Ref("Pt")))])),
+    Alias("SL", ObjT([Prop("v", P("string")), Prop("next", Ref("SL"), true), Prop("kids", ArrT(Ref("SL")))])),
     Alias("Flat", Mapped("K", Keyof(Param("T")), Index(Param("T"), Param("K"))), ["T"]),
     Alias("TR1", Tup([P("string")], P("number"))),
     Alias("TR2", Tup([P("string"), P("boolean")], P("number"))),
@@ -108,6 +124,16 @@ export function f2Types() {
     out.push(Util("Exclude", U(x, y, P("null")), P("null")), Util("Exclude", U(y, x, P("string")), P("string")));
   // recursive operands: the remainder is recursive through its own head, below its head, or not at all
   out.push(Util("Exclude", U(Ref("Tree"), P("string")), P("string")), Util("Exclude", U(Ref("List"), P("number"), P("string")), P("string")), Util("Exclude", U(ObjT([Prop("a", Ref("Tree"))]), P("null")), P("null")), Util("Exclude", U(ArrT(Ref("List")), P("string")), P("string")), Util("Exclude", U(Ref("Tree"), Ref("List")), Ref("List")));
+  // diamonds of alias unions in every position that unfolds a union of keys / distributes over members
+  for (const d of [Ref("DAct"), Ref("DAct2"), U(Ref("DEd"), Ref("DAd"))]) {
+    out.push(Util("Record", d, P("boolean")), Mapped("K", d, Param("K")), Mapped("K", d, P("number"), true), Util("Pick", Ref("DWide"), d), Util("Omit", Ref("DWide"), d));
+    out.push(Util("Exclude", d, L("a")), Ref("IsStr", [d]), Index(Ref("DWide"), d), Util("Exclude", Keyof(Ref("DWide")), d), Cond(d, P("string"), L("yes"), L("no")));
+  }
+  // semantic results over objects with top-typed properties / one named type used as optional and as required member
+  out.push(Util("Exclude", U(Ref("SA"), Ref("SB")), ObjT([Prop("kind", L("b"))])), Util("Exclude", U(Ref("SA"), Ref("SB")), ObjT([Prop("kind", L("a"))])));
+  out.push(Util("Exclude", U(Ref("SA"), P("null")), P("null")), Util("Exclude", U(Ref("SB"), P("string")), P("string")), Util("Exclude", U(ObjT([Prop("u", P("unknown"))]), P("null")), P("null")));
+  out.push(Util("Exclude", U(Ref("SC"), P("null")), P("null")), Util("Exclude", U(Ref("SD"), P("null")), P("null")), Util("Exclude", U(Ref("SL"), P("string")), P("string")));
+  out.push(Index(I(Ref("SL"), ObjT([Prop("m", L(1))])), L("next")), Index(I(Ref("SD"), ObjT([Prop("m", L(1))])), U(L("a"), L("b"))));
   out.push(Ref("ElemOf", [Ref("A1")]), Ref("ElemOf", [Ref("T1")]));
   out.push(Util("Exclude", Keyof(Ref("O3")), L("a")), Util("Pick", Ref("O3"), Util("Exclude", Keyof(Ref("O3")), L("a"))));
   out.push(Ref("Wrap", [Keyof(Ref("O1"))]), ArrT(Util("Partial", Ref("O1"))), ObjT([Prop("x", Util("Pick", Ref("O1"), L("a"))), Prop("y", Index(Ref("O1"), L("b")), true)]));
